@@ -498,6 +498,10 @@ def config_matrix(seed: int, tier: str):
 
 
 class C15Property:
+    # one execution of a schedule case costs about a second (line-level pre-emption): minimisation and the search
+    # for a reproducing candidate get a small fixed number of re-executions
+    shrink_budget = 40
+    report_candidates = 2
     engine = "threads"
     rule = ("one evaluation = one of: a seeded pre-emption schedule of 2-4 caller threads (real threads, one runnable at a time, switch points at sys.settrace line events "
             "inside nix_manipulator), a purity history (deep snapshot around every rebuild), or an order-permutation batch; plus one configuration matrix "
